@@ -1,5 +1,5 @@
 """C06 – location tracking (table-driven backend; engine E2 with symbolic locations)."""
-from vlib import kernel
+from vlib import kernel, e3
 from props import c02
 
 PID = "C06"
@@ -12,9 +12,13 @@ ASSUME = c02.ASSUME + [
 
 
 def run(tier):
-    return c02.run_e2(PID, tier, ASSUME, grammars=("act_loc", "act_inline", "act_plain"),
-                      relevant=lambda c: any(x in c for x in c02.LOCATION),
-                      whole=(("act_loc", "act_inline"), ("args",)))
+    rc = c02.run_e2(PID, tier, ASSUME, grammars=("act_loc", "act_inline", "act_plain"),
+                    relevant=lambda c: any(x in c for x in c02.LOCATION),
+                    whole=(("act_loc", "act_inline"), ("args",)))
+    # driver half: the location handed to every reduce() call is the start of the current lookahead token / None at end of input
+    return e3.add_stage(PID, tier, rc, ["plain", "recovery"], {"C06"},
+                        extra_assumptions=["driver stage: on every path of the real driver (with and without error recovery) each reduce() call receives the start location of "
+                                           "the current lookahead token, None at end of input; with the per-step result above this places empty productions as documented"])
 
 
 def replay(path):
